@@ -22,12 +22,20 @@ def showProto : Proto → String
   | .none => "none" | .tcp => "tcp" | .udp => "udp" | .icmp => "icmp"
 def showAction : Action → String | .permit => "PERMIT" | .deny => "DENY"
 def parseKind : String → Option Kind
-  | "computer" => some .computer | "server" => some .server | "switch" => some .switch
+  | "computer" => some .computer | "server" => some .server | "printer" => some .printer | "switch" => some .switch
   | "router" => some .router | "firewall" => some .firewall | _ => none
 def showKind : Kind → String
-  | .computer => "computer" | .server => "server" | .switch => "switch" | .router => "router" | .firewall => "firewall"
-def parseState : String → Option (Option Bool)
-  | "-" => some none | "ON" => some (some true) | "OFF" => some (some false) | _ => none
+  | .computer => "computer" | .server => "server" | .printer => "printer" | .switch => "switch" | .router => "router" | .firewall => "firewall"
+def parseState : String → Option (Option Power)
+  | "-" => some none | "ON" => some (some .on) | "OFF" => some (some .off) | "BOOTING" => some (some .booting)
+  | "SHUTTING_DOWN" => some (some .shuttingDown) | _ => none
+def showPower : Power → String
+  | .on => "ON" | .off => "OFF" | .booting => "BOOTING" | .shuttingDown => "SHUTTING_DOWN"
+def parseHealth : String → Option (Option Health)
+  | "-" => some none | "UNUSED" => some (some .unused) | "GOOD" => some (some .good) | "FIXING" => some (some .fixing)
+  | "COMPROMISED" => some (some .compromised) | "OVERWHELMED" => some (some .overwhelmed) | _ => none
+def showHealth : Health → String
+  | .unused => "UNUSED" | .good => "GOOD" | .fixing => "FIXING" | .compromised => "COMPROMISED" | .overwhelmed => "OVERWHELMED"
 
 def showRule (r : Rule) : String :=
   s!"{showAction r.action},{showOpt showProto r.proto},{showOpt showIp r.srcIp},{showOpt showIp r.srcWc}," ++
@@ -56,12 +64,12 @@ def showAclLines (h nm : String) (a : Acl) : List String :=
 def showInventory (inv : Inventory) : String :=
   let nodeLines := inv.nodes.flatMap fun n =>
     let h := n.hostname
-    [s!"node {h} {showKind n.kind} {if n.on then "ON" else "OFF"} sud={n.startUp} sdd={n.shutDown} dns={showOpt showIp n.dns} gw={showOpt showIp n.gateway}"]
-    ++ (enumFrom 1 n.nics).map (fun (i, c) => s!"nic {h} {i} {showOpt id c.name} {showOpt showIp c.ip} {showOpt showIp c.mask}")
+    [s!"node {h} {showKind n.kind} {showPower n.power} sud={n.startUp} sdd={n.shutDown} dns={showOpt showIp n.dns} gw={showOpt showIp n.gateway}"]
+    ++ (enumFrom 1 n.nics).map (fun (i, c) => s!"nic {h} {i} {showOpt id c.name} {showOpt showIp c.ip} {showOpt showIp c.mask} wired={showBool c.wired} en={showBool c.enabled}")
     ++ n.acls.flatMap (fun (nm, a) => showAclLines h nm a)
     ++ (enumFrom 0 n.routes).map (fun (i, r) => s!"route {h} {i} {showIp r.addr} {showIp r.mask} {showIp r.hop} {r.metric}")
     ++ (match n.defaultRoute with | some ip => [s!"defroute {h} {showIp ip}"] | none => [])
-    ++ n.software.map (fun sw => s!"sw {h} {sw.name} {if sw.isApp then "app" else "svc"} n={sw.live} {sw.opts}")
+    ++ n.software.map (fun sw => s!"sw {h} {sw.name} {if sw.isApp then "app" else "svc"} n={sw.live} st={if sw.running then "RUNNING" else if sw.isApp then "CLOSED" else "STOPPED"} h={showHealth sw.health} {sw.opts}")
     ++ n.users.map (fun u => s!"user {h} {u.name} {u.password} {showBool u.admin}")
     ++ n.folders.flatMap (fun fd => s!"folder {h} {fd.name}" ::
         fd.files.map (fun f => s!"file {h} {fd.name} {f.name} {showOpt toString f.size} {showOpt id f.ftype}"))
@@ -82,12 +90,33 @@ def showErr : Err → String
 
 def parseNat? (s : String) : Option (Option Nat) := parseOpt String.toNat? s
 
+def showOKind : OKind → String
+  | .core => "switch" | .edge => "switch" | .router => "router" | .pc => "computer"
+
+def showOffice (base : Nat) (inv : OfficeInv) : String :=
+  let ip (o : Nat) : String := s!"192.168.{base}.{o}"
+  let nodeLines := inv.nodes.map fun n =>
+    s!"onode {n.name} {showOKind n.kind} {showOpt ip n.octet} {if n.gateway then ip 1 else "-"}"
+  let linkLines := inv.links.map fun l => s!"olink {l.a} {l.pa} {l.b} {l.pb} {l.bandwidth}"
+  " | ".intercalate (nodeLines ++ linkLines)
+
+def showOErr : OErr → String
+  | .ipRange => "error ipRange" | .ipStartSmall => "error ipStartSmall" | .unboundRouter => "error unboundRouter"
+
+def parseOffice : List String → Option OfficeCfg
+  | [lan, base, start, n, router, bw] =>
+    match base.toNat?, start.toNat?, n.toNat?, parseOpt parseBool router, parseNat? bw with
+    | some base, some start, some n, some router, some bw =>
+      some { lanName := lan, subnetBase := base, ipStart := start, numPcs := n, includeRouter := router, bandwidth := bw }
+    | _, _, _, _, _ => none
+  | _ => none
+
 def step (s : St) : List String → St × String
   | ["node", kind, host, st, sud, sdd, dns, gw, ip, mask, np] =>
     match parseKind kind, parseState st, parseNat? sud, parseNat? sdd, parseOpt parseIp dns, parseOpt parseIp gw,
           parseOpt parseIp ip, parseOpt parseIp mask, parseNat? np with
     | some k, some st, some sud, some sdd, some dns, some gw, some ip, some mask, some np =>
-      ({ s with nodes := { kind := k, hostname := host, on := st, startUp := sud, shutDown := sdd, dns := dns, gateway := gw,
+      ({ s with nodes := { kind := k, hostname := host, power := st, startUp := sud, shutDown := sdd, dns := dns, gateway := gw,
                            ip := ip, mask := mask, numPorts := np } :: s.nodes }, "ok")
     | _, _, _, _, _, _, _, _, _ => (s, "bad-op")
   | ["port", k, ip, mask] =>
@@ -123,8 +152,15 @@ def step (s : St) : List String → St × String
     match parseIp hop with
     | some hop => updNode s fun n => { n with defaultRoute := some hop }
     | none => (s, "bad-op")
-  | "svc" :: ty :: opts => updNode s fun n => { n with services := n.services ++ [{ isApp := false, type := ty, opts := parseOpts opts }] }
-  | "app" :: ty :: opts => updNode s fun n => { n with applications := n.applications ++ [{ isApp := true, type := ty, opts := parseOpts opts }] }
+  -- `svc|app <type> <starting health|-> <init starts 0|1> <options…>`
+  | "svc" :: ty :: hl :: ini :: opts =>
+    match parseHealth hl, parseBool ini with
+    | some hl, some ini => updNode s fun n => { n with services := n.services ++ [{ isApp := false, type := ty, opts := parseOpts opts, health := hl, initStarts := ini }] }
+    | _, _ => (s, "bad-op")
+  | "app" :: ty :: hl :: ini :: opts =>
+    match parseHealth hl, parseBool ini with
+    | some hl, some ini => updNode s fun n => { n with applications := n.applications ++ [{ isApp := true, type := ty, opts := parseOpts opts, health := hl, initStarts := ini }] }
+    | _, _ => (s, "bad-op")
   | ["user", nm, pw, adm] =>
     match parseOpt parseBool adm with
     | some adm => updNode s fun n => { n with users := n.users ++ [{ name := nm, password := pw, admin := adm }] }
@@ -156,6 +192,17 @@ def step (s : St) : List String → St × String
         | .ok inv => showInventory inv
         | .error e => showErr e)
   | ["declared"] => (s, showInventory (declared s.scenario))
+  -- office-lan node set: `office-build|office-declared <lan> <subnet_base> <ip start> <num_pcs> <include_router -|0|1> <bandwidth|->`
+  | "office-build" :: args =>
+    match parseOffice args with
+    | some c => (s, match officeBuild c with
+        | .ok inv => showOffice c.subnetBase inv
+        | .error e => showOErr e)
+    | none => (s, "bad-op")
+  | "office-declared" :: args =>
+    match parseOffice args with
+    | some c => (s, showOffice c.subnetBase (officeDeclared c))
+    | none => (s, "bad-op")
   -- episode schedule: `sched-entry <episode> <file>*`, `sched-file <name>`, then `sched <n>` answers the names joined for episode n
   | "sched-entry" :: e :: names =>
     match e.toNat? with
